@@ -144,6 +144,22 @@ def deep_doc(pad):
     return ''.join(out), [{'code': 'deep', 'entries': entries}]
 
 
+def eof_doc(pad):
+    """A document of about 165 kB whose bulk is comment lines mixing one- and two-byte characters (so that the number of
+    characters a 4096-byte read yields drifts against the scan buffer's free space), with one item at the very start
+    and one at the very end; `pad` more comment characters move the end of the input across the read boundaries."""
+    out = ['#\\#CIF_2.0\ndata_big\n_first 1\n']
+    for k in range(1902):       # about 127 500 characters: the padding then sweeps the total across the scan buffer size
+        out.append('# %04d ' % k + '\u00e9\u00e8' * 18 + ' plain ascii filler ' + '\u00f8' * (k % 7) + '\n')
+    left = pad
+    while left > 0:
+        m = min(left, 1500)
+        out.append('#' + 'p' * m + '\n')
+        left -= m
+    out.append("_last 'the end'")
+    return ''.join(out), [{'code': 'big', 'entries': [('item', '_first', ('char', '1', False)), ('item', '_last', ('char', 'the end', True))]}]
+
+
 def check_document(ctx, L, label, doc, text, version, info, opts=None):
     data = text.encode('utf-8')
     res = parsing.parse(L, data, opts or parsing.make_opts(), 'new', 'accept')
@@ -199,7 +215,11 @@ def worker(ctx):
             pad = j if j < 128 else (j - 128) * 37 % 4096
             version = 2
             label = 'deep:%s' % ('lf', 'crlf', 'cr')[j % 3]
-            text, doc = deep_doc(pad)
+            if j % 2:
+                text, doc = eof_doc((j * 53) % 4096)
+                label = 'eof:%s' % ('lf', 'crlf', 'cr')[j % 3]
+            else:
+                text, doc = deep_doc(pad)
             if j % 3:
                 from .C08 import restyle
                 text = restyle(text, ('lf', 'crlf', 'cr')[j % 3], rng)
@@ -240,7 +260,7 @@ def worker(ctx):
 def run(env):
     nrand = 8000 if env.quick else 150000
     nfam = len(family_docs())
-    ndeep = 192 if env.quick else 1536
+    ndeep = 384 if env.quick else 3072
     res = env.run_pool(MODULE, dict(random_docs=nrand, deep_docs=ndeep), nshards=16)
     total = nfam + nrand + ndeep
     inconclusive = list(res.inconclusive)
